@@ -17,6 +17,7 @@ type DocGen struct {
 	PEmpty   float64 // probability of an empty container / list where a composite is chosen
 	PList    float64 // probability of a list where a composite is chosen
 	PLeaf    float64 // probability of a leaf at inner positions
+	PLong    float64 // probability that a non-empty list is long (10-13 items: multi-digit indices)
 	Types    []string
 	Strings  []string // string scalar pool (nil: default)
 }
@@ -24,7 +25,7 @@ type DocGen struct {
 var defaultKeys = []string{"a", "b", "c", "k1", "x-y", "z_9"}
 
 func stdGen() *DocGen {
-	return &DocGen{Keys: defaultKeys, MaxDepth: 4, MaxWidth: 4, ListMax: 4, PNull: 0.1, PEmpty: 0.12, PList: 0.4, PLeaf: 0.55,
+	return &DocGen{Keys: defaultKeys, MaxDepth: 4, MaxWidth: 4, ListMax: 4, PNull: 0.1, PEmpty: 0.12, PList: 0.4, PLeaf: 0.55, PLong: 0.03,
 		Types: []string{"int", "string", "bool", "float64"}}
 }
 
@@ -69,8 +70,16 @@ func (g *DocGen) List(r *rand.Rand, depth int) W {
 		return []any{}
 	}
 	n := 1 + r.Intn(g.ListMax)
+	long := g.PLong > 0 && r.Float64() < g.PLong
+	if long {
+		n = 10 + r.Intn(4)
+	}
 	l := make([]any, n)
 	for i := range l {
+		if long && i < 9 {
+			l[i] = g.Scalar(r) // keep long lists cheap: composites only at the multi-digit end
+			continue
+		}
 		l[i] = g.Node(r, depth+1)
 	}
 	return l
